@@ -175,6 +175,22 @@ class Serials:
 # ----------------------------------------------------------------------------------------
 # the real factories
 
+import datetime as _dtm
+
+ANSWER_PROBES = [_dtm.datetime(2021, 1, 15, 12), _dtm.datetime(2021, 3, 14, 1, 30), _dtm.datetime(2021, 3, 14, 3, 30),
+                 _dtm.datetime(2021, 7, 1, 12), _dtm.datetime(2021, 11, 7, 1, 30), _dtm.datetime(1970, 1, 1)]
+
+
+def zone_answers(z):
+    """what a completely built zone answers at a few instants (both folds)"""
+    out = []
+    for dt in ANSWER_PROBES:
+        for fold in (0, 1):
+            d = dt.replace(tzinfo=z, fold=fold)
+            out.append((d.utcoffset(), d.dst(), d.tzname()))
+    return out
+
+
 class World:
     """The three real factories with their private state reachable and resettable, plus a
     classification of every key (what the constructor / nocache does for it)."""
@@ -194,6 +210,7 @@ class World:
         self.tarball = get_zonefile_instance()
         self.statics = []   # permanent objects, index n -> model id -(n)-1 ; 0 = tz.UTC
         self.statics.append(tz.UTC)
+        self.validity_problems = []
 
     def key(self, f, rk):
         k = self.keys.get((f, rk))
@@ -208,25 +225,55 @@ class World:
         self.statics.append(obj)
         return len(self.statics) - 1
 
-    def add_entry(self, f, args):
-        """register real call arguments; computes the map key and what the constructor does"""
+    def add_entry(self, f, args, valid=True):
+        """register real call arguments; computes the map key and what the constructor does.
+        `valid` comes from the caller's STATIC table (documented API), not from the implementation:
+        a valid request that raises while being probed is still labelled as succeeding (so that the
+        run reports the exception as unexpected) and recorded in self.validity_problems."""
+        e = self._add_entry(f, args)
+        ent = self.entries[e]
+        raised = ent["kind"][0] == K_RAISE or (ent["kind"][0] == K_TZSTR and ent["kind"][2] and f == FSTR)
+        if valid and ent["kind"][0] == K_RAISE:
+            self.validity_problems.append({"what": "a valid request raised", "fac": f, "args": repr(args),
+                                           "exception": ent.get("probe_exception")})
+            ent["kind"] = (K_FRESH, 0, 0)
+        elif not valid and ent["kind"][0] != K_RAISE:
+            self.validity_problems.append({"what": "an invalid request did not raise", "fac": f, "args": repr(args)})
+        ent["valid"] = valid
+        # reference answers of a freshly built zone of this request ("never a half-built zone")
+        ent["answers"] = None
+        if valid and ent["kind"][0] in (K_FRESH, K_STATIC, K_TZSTR, K_LOCAL):
+            try:
+                z = (self.tz.tzoffset.instance(*args) if f == FOFF else
+                     self.tz.tzstr.instance(*args) if f == FSTR else self.tz.gettz.nocache(*args))
+                ent["answers"] = zone_answers(z) if z is not None else None
+            except Exception:
+                ent["answers"] = None
+        return e
+
+    def _add_entry(self, f, args):
         tz = self.tz
         if f == FOFF:
             name, off = args
             rk = (name, off.total_seconds()) if hasattr(off, "total_seconds") else (name, off)
+            exc_name = None
             try:
                 tz.tzoffset.instance(*args)
                 kind = (K_FRESH, 0, 0)
-            except Exception:
+            except Exception as ex:
                 kind = (K_RAISE, 0, 0)
+                exc_name = type(ex).__name__
         elif f == FSTR:
             rk = (args[0], args[1] if len(args) > 1 else False)
+            exc_name = None
             try:
                 tz.tzstr.instance(*args)
                 kind = (K_FRESH, 0, 0)
-            except Exception:
+            except Exception as ex:
                 kind = (K_RAISE, 0, 0)
+                exc_name = type(ex).__name__
         else:
+            exc_name = None
             name = args[0]
             rk = name
             s = name
@@ -249,9 +296,10 @@ class World:
                     kind = (K_STATIC, self.static_index(rv), 0)
                 else:
                     kind = (K_FRESH, 0, 0)
-            except Exception:
+            except Exception as ex:
                 kind = (K_RAISE, 0, 0)
-        e = {"fac": f, "key": self.key(f, rk), "args": args, "kind": kind}
+                exc_name = type(ex).__name__
+        e = {"fac": f, "key": self.key(f, rk), "args": args, "kind": kind, "probe_exception": exc_name}
         self.entries.append(e)
         return len(self.entries) - 1
 
@@ -570,6 +618,14 @@ class Sched:
                         self.refs.pop(slot, None)
                     else:
                         self.refs[slot] = res
+                    want = self.w.entries[op[5]].get("answers")
+                    if res is not None and want is not None:
+                        try:
+                            got = zone_answers(res)
+                        except Exception as ex:
+                            got = "raised %s" % type(ex).__name__
+                        if got != want:
+                            self.excs.append((t, op, "half-built zone: answers differ from a fresh instance()"))
                     if cacheable:
                         self.returns.append((op[1], op[2], self.ser.of(res), self.tep[t], held))
                         if not isinstance(res, self.w.tzinfo_cls):
@@ -678,6 +734,14 @@ def run_sequential(world, prog):
                     refs.pop(op[4], None)
                 else:
                     refs[op[4]] = res
+                want = world.entries[op[5]].get("answers")
+                if res is not None and want is not None:
+                    try:
+                        got = zone_answers(res)
+                    except Exception as ex:
+                        got = "raised %s" % type(ex).__name__
+                    if got != want:
+                        excs.append((op, "half-built zone: answers differ from a fresh instance()"))
                 if world.is_cached_path(op, res):
                     returns.append((op[1], op[2], ser.of(res), epoch, held))
                     if not isinstance(res, world.tzinfo_cls):
